@@ -139,7 +139,51 @@ for case in range(6):
     finally:
         import shutil
         shutil.rmtree(d, ignore_errors=True)
-print(json.dumps({'bounded': [{'name': 'from_thermdat-reads-the-named-file-every-time', 'scope': '6 files rewritten in place between two constructions',
+# ---- a solver failure is visible under the interpreter's own warning configuration (nothing in pMuTT filters it away) ------------
+import subprocess, sys
+PROBE = r"""
+import json, sys, warnings
+shown = []
+warnings.showwarning = lambda message, category, *a, **k: shown.append(category.__name__)
+import numpy as np
+import pmutt.equilibrium._equilibrium as E
+from pmutt.empirical.nasa import Nasa
+holder = {}
+orig = E.minimize
+def spy(*a, **k):
+    r = orig(*a, **k); holder['r'] = r; return r
+E.minimize = spy
+def sp(name, h):
+    a = np.zeros(7); a[0] = 3.5; a[5] = h
+    return Nasa(name=name, T_low=200, T_mid=1000, T_high=3000, a_low=a, a_high=a, elements={'H': 1, 'C': 1, 'N': 1}, phase='G')
+out = {'raised': None}
+try:
+    E.Equilibrium(model=[sp('HCN', 1000.), sp('HNC', 8000.)], network={'HCN': 1.0, 'HNC': 2.0}).get_net_comp(T=800., P=1.)
+except Exception as e:
+    out['raised'] = type(e).__name__
+out['success'] = bool(holder['r'].success) if 'r' in holder else None
+out['shown'] = shown
+out['ignore_filters'] = [repr(f[:4]) for f in warnings.filters if f[0] == 'ignore' and f[2] is not None
+                         and issubclass(RuntimeWarning, f[2]) and f[3] is not None and f[3].match('pmutt.equilibrium._equilibrium')]
+print(json.dumps(out))
+"""
+f3 = []
+try:
+    pr = subprocess.run([sys.executable, '-c', PROBE], capture_output=True, text=True, timeout=300,
+                        env={k: v for k, v in os.environ.items() if k != 'PYTHONWARNINGS'})
+    probe = json.loads(pr.stdout.strip().splitlines()[-1])
+    if probe['success'] is False and probe['raised'] is None and not probe['shown']:
+        f3.append({'witness': {'network': 'HCN/HNC (2 species, 3 elements)', 'T': 800., 'P': 1.}, 'key': 'filtered',
+                   'what': 'the solver did not converge, no exception was raised and no warning reached the caller under the '
+                           'default warning configuration (filters installed while importing pmutt: %s)' % probe['ignore_filters']})
+    probe_note = 'solver success=%r, raised=%r, warnings shown=%r' % (probe['success'], probe['raised'], probe['shown'])
+except Exception as e:
+    f3.append({'witness': {}, 'what': 'probe failed: %s: %s' % (type(e).__name__, str(e)[:200])})
+    probe_note = 'probe failed'
+print(json.dumps({'bounded': [{'name': 'solver-failure-visible-under-default-warning-filters',
+                               'scope': 'one non-convergent network in a fresh interpreter with its default warning configuration; ' + probe_note,
+                               'n': 1, 'failures': f3},
+                              {'name': 'from_thermdat-reads-the-named-file-every-time', 'scope': '6 files rewritten in place between two constructions',
                                'n': n2, 'failures': f2[:10]},
                               {'name': 'equilibrium-solver-results',
                                'scope': '%d seeded networks of 2-8 species over 1-4 elements; %d unconverged (all signalled); '
